@@ -117,8 +117,8 @@ PROPS["C13"] = {
 
 PROPS["C17"] = {
     "title": "Identifier algebra is exact and foreign-session traffic is never delivered",
-    "corr_modules": ["WireC", "FrameC", "E2C"],
-    "suites": [("e1", "ids", ["debug"]), ("e1", "dgram", ["debug"]), ("e1", "sheader", ["debug"]), ("e2", "foreign", ["debug"]), ("e2", "wdgram", ["debug"]), ("e2", "emit", ["debug"])],
+    "corr_modules": ["WireC", "FrameC", "E2C", "E3C"],
+    "suites": [("e1", "ids", ["debug"]), ("e1", "dgram", ["debug"]), ("e1", "sheader", ["debug"]), ("e2", "foreign", ["debug"]), ("e2", "wdgram", ["debug"]), ("e2", "emit", ["debug"]), ("e2", "trace", ["debug"])],
     "technique": PROOF_TECH,
     "level_text": "theorems for all 2^62 ids: acceptance iff client-initiated bidirectional, conversions mutually inverse and in range, unsafe preconditions never violated, parsed session ids always valid; tie: differential runs over all low-bit classes x boundary magnitudes",
     "level_note": CODEC_NOTE + "; the driver-level session filter (foreign streams stopped, foreign datagrams dropped) is exercised by the wire engine, see DESIGN.md",
